@@ -6,6 +6,7 @@ import time
 
 sys.path.insert(0, os.path.dirname(os.path.abspath(__file__)))
 import vxlib  # noqa: E402
+import helpers  # noqa: E402
 
 
 def load_unit(name):
@@ -24,19 +25,28 @@ def verify_unit(name, vacuity=False, seed=None, rlimit=None, suffix=""):
     m = load_unit(name)
     t0 = time.time()
     unit = m.build(vacuity=vacuity)
-    text = unit.text()
     os.makedirs(vxlib.OUT, exist_ok=True)
     path = os.path.join(vxlib.OUT, f"{name}{'_vacuity' if vacuity else ''}{suffix}.rs")
-    with open(path, "w") as f:
-        f.write(text)
-    an = vxlib.Analysis(text)
-    extra = []
-    only = getattr(unit, "verify_only", None)
-    if (vacuity and unit.modules) or only:
-        for mod in (only or unit.modules):
-            extra += ["--verify-module", mod]
-    vres = vxlib.run_verus(path, extra=extra, rlimit=rlimit or getattr(m, "RLIMIT", None), seed=seed, log_air=not vacuity,
-                            multiple_errors=(6 if vacuity else 40))
+    for _round in range(6):
+        text = unit.text()
+        with open(path, "w") as f:
+            f.write(text)
+        an = vxlib.Analysis(text)
+        extra = []
+        only = getattr(unit, "verify_only", None)
+        if (vacuity and unit.modules) or only:
+            for mod in (only or unit.modules):
+                extra += ["--verify-module", mod]
+        vres = vxlib.run_verus(path, extra=extra, rlimit=rlimit or getattr(m, "RLIMIT", None), seed=seed, log_air=not vacuity,
+                                multiple_errors=(6 if vacuity else 40))
+        if not vres.compile_errors:
+            break
+        # R28: a call of a /repo function the unit did not request -> extract that helper and try again
+        added = False
+        for (hname, hty, hline) in helpers.requests(unit, vres.compile_errors):
+            added = helpers.add_helper(unit, hname, hty, hline, an, getattr(m, "HELPER_OPTS", None)) or added
+        if not added:
+            break
     r = UnitRun()
     r.name = name
     r.module = m
